@@ -23,6 +23,18 @@ def get_gengy(t: type) -> dict:
 def weight(w):
     def weight_w(clazz):
         get_gengy(clazz)["weight"] = w
+        get_gengy(clazz).pop("declared_weight", None)
         return clazz
 
     return weight_w
+
+
+def declared_weight(t: type) -> float:
+    """The weight the user declared on a class.
+
+    Extracting a grammar rewrites `weight` with the normalised value and keeps the declaration next to
+    it, so that a class shared by several grammars is always normalised from what was declared."""
+    gengy = get_gengy(t)
+    if "declared_weight" in gengy and gengy.get("normalised_weight") == gengy.get("weight"):
+        return gengy["declared_weight"]
+    return gengy.get("weight", 1.0)
